@@ -539,6 +539,12 @@ func (c *Cluster) ConnClosedLocked(id int) bool {
 	return c.Conns[id].cli.Closed() || c.Conns[id].closedByBroker
 }
 
+// ClientBytes returns everything the client wrote on connection id (lock held by caller).
+func (c *Cluster) ClientBytes(id int) []byte { return c.Conns[id].cli.Journal() }
+
+// VersionsOf returns the table broker id advertises (lock held by caller).
+func (c *Cluster) VersionsOf(broker int) map[protocol.ApiKey]VRange { return c.versionsOf(broker) }
+
 func (c *Cluster) ConnBroker(id int) int {
 	c.mu.Lock()
 	defer c.mu.Unlock()
